@@ -152,7 +152,62 @@ fn same_publishes(a: &SOutcome, b: &SOutcome) -> Option<String> {
     None
 }
 
+pub fn replay(path: &str) -> i32 {
+    let s = std::fs::read_to_string(path).expect("MACHINERY: cannot read replay file");
+    let v: Value = serde_json::from_str(&s).expect("MACHINERY: replay JSON");
+    let r = if v.get("replay").is_some() { &v["replay"] } else { &v };
+    let ctx = if r.get("ctx").is_some() { &r["ctx"] } else { r };
+    let init = ctx["initial_sequence"].as_u64().unwrap() as u16;
+    let script = |x: u16| -> Vec<(usize, u16)> { r["deliver_at_recv_call"].as_u64().map(|c| vec![(c as usize, x)]).unwrap_or_default() };
+    let stale = r["stale_sequence"].as_u64().map(|x| x as u16);
+    let mk = |scr: Vec<(usize, u16)>| -> SOutcome {
+        match ctx["part"].as_str() {
+            Some("D") => strat::run_strategy(dublin_v6_cfg(init, ctx["probes_per_round"].as_u64().unwrap() as u8, ctx["rounds"].as_u64().unwrap() as usize, scr), Chooser::new(&[], 0)),
+            Some("C") => {
+                let n = ctx["constant_round_size"].as_u64().unwrap() as usize;
+                strat::run_strategy(tcp_cfg(init, &vec![n; ctx["rounds"].as_u64().unwrap() as usize], scr), Chooser::new(&[], 0))
+            }
+            _ => {
+                let sizes: Vec<usize> = ctx["round_sizes"].as_array().expect("round_sizes").iter().map(|x| x.as_u64().unwrap() as usize).collect();
+                strat::run_strategy(tcp_cfg(init, &sizes, scr), Chooser::new(&[], 0))
+            }
+        }
+    };
+    println!("replay C07: {ctx} stale sequence {stale:?}");
+    let mut f = Findings::new();
+    let base = mk(vec![]);
+    println!("result {:?}; {} rounds, {} probes dispatched", base.result, base.world.publishes.len(), base.world.sends.len());
+    for (r, p) in base.world.publishes.iter().enumerate() {
+        let s: Vec<u16> = base.world.sends.iter().filter(|s| s.round == r).map(|s| s.seq).collect();
+        println!("  round {r}: {} slots, sequences {:?}..{:?}, largest_ttl {}", p.probes.len(), s.first(), s.last(), p.largest_ttl);
+    }
+    monitor(&base, init, base.world.publishes.len(), ctx, &mut f);
+    if let Some(x) = stale {
+        let with = mk(script(x));
+        let inert = mk(script(u16::MAX));
+        if let Some(p) = &with.panic {
+            add(&mut f, p.key(), p.message.clone(), json!(null), 0);
+        } else if let Some(d) = same_publishes(&with, &inert) {
+            add(&mut f, "previous-round-sequence-valid-in-current-round".into(), d, json!(null), 0);
+        }
+    }
+    f.remove("round-count");
+    for (k, x) in &f {
+        println!("DISCREPANCY {k}: {}", x.detail);
+    }
+    if f.is_empty() {
+        println!("replay: property held");
+        0
+    } else {
+        println!("VIOLATION property=C07 replay={path}");
+        1
+    }
+}
+
 pub fn run(args: &Args) -> i32 {
+    if let Some(path) = &args.replay {
+        return replay(path);
+    }
     let tier = args.tier;
     let mut rep = Report::new("C07", tier, "model_checking");
     let findings: Mutex<Findings> = Mutex::new(Findings::new());
